@@ -395,6 +395,43 @@ def run(ctx, only=None):
     ctx.coverage['scripts'] = len(cases)
 
 
+def shutdown_probe(ctx):
+    """For C03 (the conditional-shutdown and flag actions are built-in actions run inside the handler): the
+    fixed scripts and a status sample on the real crates; an action that ends the process must do so at once,
+    with the requested status, WITHOUT running exit hooks (an exit path that runs hooks takes locks and waits:
+    not async-signal-safe), and in every environment (ignored before / foreign handler / more threads)."""
+    rc, out, _ = sh([bin_path('p_c15'), 'term'], timeout=60)
+    try:
+        term = [int(x) for x in out.split()]
+        assert rc == 0 and term
+    except (ValueError, AssertionError):
+        ctx.correspondence('TERM_SIGNALS read from the crate', False, out[-500:])
+        return
+    rnd = random.Random(ctx.seed * 1000003 + 3)
+    base = fixed_cases(term) + gen_status_cases(rnd, term, 'quick')[:40]
+    cases = base + [with_env(rnd, fam, ops) for fam, ops in base]
+    rc, impl, raw = run_impl(cases)
+    if rc != 0 or len(impl) != len(cases):
+        ctx.correspondence('built-in shutdown/flag actions probe ran', False, raw[-1500:])
+        return
+    n_viol = 0
+    for i, (fam, ops) in enumerate(cases):
+        ctx.evaluations += 1
+        ex = expected(NB, NU, strip_env(ops))
+        if ex != impl[i]:
+            n_viol += 1
+            if n_viol <= 3:
+                clause = clause_of(NB, NU, strip_env(ops), impl[i], ex)
+                ctx.violation({'builtin_action': clause, 'ops': flat(ops)},
+                              'built-in flag/shutdown action, %s: script %s gives log %s, expected %s%s' % (
+                                  clause, ops, impl[i], ex, ' (exit hooks ran: the action left the handler through an exit path that is not async-signal-safe)'
+                                  if clause == 'exit-hooks-ran' else ''),
+                              {'c15_script': [list(o) for o in ops], 'impl': impl[i], 'expected': ex})
+        else:
+            ctx.traces += 1
+    ctx.coverage['builtin_shutdown_scripts'] = len(cases)
+
+
 def replay(ctx, path):
     case = json.load(open(path))
     c = case.get('case') or {}
